@@ -1495,7 +1495,11 @@ impl DtlsInner {
             )?;
             self.conn.send(&buf).await?;
             ctx.last_flight_records = Some(vec![buf]);
-            ctx.message_seq += 1;
+            // A server may answer with HelloVerifyRequest again and again; our
+            // 16-bit message_seq must not overflow — give up the handshake instead.
+            ctx.message_seq = ctx.message_seq.checked_add(1).ok_or_else(|| {
+                anyhow::anyhow!("DTLS handshake message sequence exhausted")
+            })?;
             // After sending a new ClientHello in response to HelloVerifyRequest,
             // the server will restart its own handshake message_seq counter.
             // Different implementations restart from different values (0 per RFC 6347
